@@ -632,7 +632,10 @@ func (fsm *storeFSM) Snapshot() (raft.FSMSnapshot, error) {
 	s.mu.Lock()
 	defer s.mu.Unlock()
 
-	return &storeFSMSnapshot{Data: (*store)(fsm).data}, nil
+	// The snapshot is persisted later, on raft's snapshot goroutine, while
+	// further commands are applied; Apply stamps term and index on the
+	// current Data in place, so the snapshot needs its own copy.
+	return &storeFSMSnapshot{Data: (*store)(fsm).data.Clone()}, nil
 }
 
 func (fsm *storeFSM) Restore(r io.ReadCloser) error {
